@@ -17,7 +17,7 @@ harness/c14_harness.cpp runs N threads on ONE TransitData and forces a given int
     connection cache / TransitData / calculator / result rendering are direct violations
     (signature data-race:<top project frame function>), anything else is logged only.
 Replay file = one input block of the harness (dataset, `thread` lines, `sched` lines)."""
-import collections, itertools, json, os, random, re, subprocess, sys, time
+import threading, collections, itertools, json, os, random, re, subprocess, sys, time
 from concurrent.futures import ThreadPoolExecutor
 from . import core, engine, gen, canon
 sys.path.insert(0, engine.VERIF)
@@ -274,6 +274,80 @@ def attribute_tsan(r):
 
 # ------------------------------------------------------------------ the check
 
+
+# ------------------------------------------------------------------ HTTP leg: the real server, overlapping requests
+
+C14_HTTP_N = {"quick": 2, "thorough": 8}          # datasets; each: both cache kinds, 8 baselines + 8 overlapping pairs
+
+
+def c14_http_leg(rep, seed, tier, stats):
+    """The real server binary (built WITH the yield-point hooks; harness/c14_server_hook.cpp holds every request for 150 ms where it
+    leaves getConnectionsForScenario), 4 worker threads: each request is first served alone, then pairs of DIFFERENT requests are sent
+    together; an overlapping request must get the body it got alone. Catches state shared between handler invocations that the
+    in-process harness (one Calculator per thread, like the unchanged handlers) cannot see."""
+    from . import httpkit as H
+    exe = core.harness_phase(rep, "server-hooked", "asan")
+    cachegen = core.harness_phase(rep, "cachegen", "plain")
+    if not exe or not cachegen: return
+    tq = "thorough" if tier == "thorough" else "quick"
+    wd = H.workdir("c14http")
+    old = os.environ.get("VERIF_HOLD_MS")
+    os.environ["VERIF_HOLD_MS"] = "150"
+    n0 = len(rep.direct)
+    try:
+        for kd in range(C14_HTTP_N[tq]):
+            p = c14_dataset(seed + 7919, kd)
+            d = dict(p["d"]); d["acc"] = sorted(d["acc"]); d["egr"] = sorted(d["egr"])
+            if d["ns"] > 17 or any(not (0 <= t <= 32767 and 0 <= x <= 32767) for a, b, t, x in d["foot"]): continue
+            urls = []
+            for kind, q in p["pool"]:
+                q = dict(q)
+                for key in ("max_access_travel_time", "max_egress_travel_time"):
+                    if key in q and int(q[key]) <= 0: q.pop(key)
+                urls.append(H.route_query(q, kind))
+            urls = urls[::max(1, len(urls) // 8)][:8]
+            for ca in (0, 1):
+                cdir = os.path.join(wd, "d%d-%d" % (kd, ca))
+                H.make_cache(d, cdir, did=p["did"], cachegen=cachegen)
+                srv = H.start_server(cdir, threads=4, cache_all=bool(ca), euclid=True, exe=exe, tag="c14http")
+                replay_head = "#!c14http cacheall=%d\n%s" % (ca, gen.write_dataset(d, p["did"], []))
+                try:
+                    if srv is None or not srv.alive():
+                        rep.direct.append(("server-startup", "hooked server did not start: %s" % (srv.output()[-300:] if srv else ""), replay_head)); continue
+                    base = []
+                    for u in urls:
+                        st, hd, body, raw = srv.get(u, timeout=20.0)
+                        base.append((st, body))
+                    rng = random.Random(seed * 31 + kd * 7 + ca)
+                    for m in range(8):
+                        i, j = rng.sample(range(len(urls)), 2)
+                        out = [None, None]
+                        def one(ix, u):
+                            out[ix] = srv.get(u, timeout=30.0)
+                        ts = [threading.Thread(target=one, args=(0, urls[i])), threading.Thread(target=one, args=(1, urls[j]))]
+                        for t in ts: t.start()
+                        for t in ts: t.join()
+                        rep.evaluations += 2; stats["http overlapping requests"] += 2
+                        for ix, which in ((0, i), (1, j)):
+                            got = out[ix]
+                            if got is None or (got[0], got[2]) != base[which]:
+                                stats["http overlapping answer differs"] += 1
+                                rep.direct.append(("concurrent-answer-differs-http",
+                                    "GET %s answered %s %s alone but %s %s while GET %s was being served (real server, 4 threads, cacheAll=%d)" % (
+                                        urls[which][:120], base[which][0], (base[which][1] or b"")[:120], got and got[0], ((got and got[2]) or b"")[:120], urls[j if ix == 0 else i][:80], ca),
+                                    replay_head + "pair %s\npair %s\n" % (urls[i], urls[j])))
+                            else:
+                                rep.nontrivial.add(hash((p["did"], ca, m, ix)))
+                    if not srv.alive() or srv.sanitizer_output():
+                        rep.direct.append(("server-crash-concurrent", "hooked server died / sanitizer report under overlapping requests: %s" % srv.sanitizer_output()[:400], replay_head))
+                finally:
+                    if srv: srv.stop()
+    finally:
+        if old is None: os.environ.pop("VERIF_HOLD_MS", None)
+        else: os.environ["VERIF_HOLD_MS"] = old
+    rep.obligation("http:overlapping-requests-answered-as-alone", len(rep.direct) == n0, "%d difference(s)" % (len(rep.direct) - n0))
+
+
 def run_c14(tier, seed, replay=None, theorems=None, module=None):
     ths = theorems or []
     rep = core.Report("C14", tier, seed, level="proof" if ths else "exploration")
@@ -295,6 +369,7 @@ def run_c14(tier, seed, replay=None, theorems=None, module=None):
         return rep.finish()
     if replay:
         return _c14_replay(rep, replay, core_exe, exe, model)
+    c14_http_leg(rep, seed, tier, stats)
     plans = [c14_dataset(seed, k) for k in range(C14_N[tq])]
     # ---- sequential baseline: every pool request alone on a fresh TransitData (+ the Lean model's answer)
     flat = []
